@@ -447,6 +447,22 @@ func (w *c07Walker) list(n ast.Node, env, loops []string, start int, after *insP
 					break
 				}
 			}
+			// C14-loopfunc-shape: inside a loop, a loop function on anything but that one plain variable
+			if len(loops) > 0 {
+				q := loops[len(loops)-1]
+				for si, args := range [][]ast.Node{
+					{},
+					{intLitNode(1)},
+					{&ast.DataRefNode{Key: q, Access: []ast.Node{&ast.DataRefKeyNode{Key: "y"}}}},
+					{refNode(q), refNode(q)},
+					{&ast.StringNode{Value: q}},
+				} {
+					args, fn := args, []string{"isLast", "isFirst", "index"}[si%3]
+					w.add("loopfunc-bad-shape", fmt.Sprintf("shape%d:%s", si, what), func() {
+						insertAt(l, i, &ast.PrintNode{Arg: &ast.FunctionNode{Name: fn, Args: args}})
+					})
+				}
+			}
 			break
 		}
 		node := l.Nodes[i]
@@ -1152,15 +1168,49 @@ func c07Render(e *env, files []srcFile, tmpls []*gtemplate, o progOpts, trees []
 		}
 		return declared
 	}
+	// the call hook (notes/pending/C07-callhook.diff) reports the template that is executing: with it the oracle is
+	// exactly "every miss is a declared param of the executing template"; a tree without the hook is judged by the
+	// approximation above (declared by some template the entry template can reach)
+	hook, exact := interface{}(tofu).(interface {
+		VerifSetCallObserver(func(string, bool))
+	})
 	for _, t := range tmpls {
 		d := genData(e.rng, t.params, o)
 		if t.rec {
 			d = data.Map{"n": data.Int(3)} // the countdown template recurses n times: a large n is C06's business
 		}
-		var missed []string
-		soyhtml.VerifUnboundObserver = func(k string) { missed = append(missed, k) }
+		var missed, foreign []string
+		stack := []string{t.full()}
+		if exact {
+			hook.VerifSetCallObserver(func(name string, enter bool) {
+				if enter {
+					stack = append(stack, name)
+				} else if len(stack) > 1 {
+					stack = stack[:len(stack)-1]
+				}
+			})
+		}
+		soyhtml.VerifUnboundObserver = func(k string) {
+			missed = append(missed, k)
+			if exact {
+				cur := stack[len(stack)-1]
+				ok := false
+				for _, p := range byName[cur].params {
+					ok = ok || p.name == k
+				}
+				if !ok {
+					foreign = append(foreign, cur+":$"+k)
+				}
+			}
+		}
 		out, rerr := render(tofu, t.full(), d, data.Map{"k": data.Int(1)})
 		soyhtml.VerifUnboundObserver = nil
+		if exact {
+			hook.VerifSetCallObserver(nil)
+			e.res.Histogram["render:oracle=executing-template"]++
+		} else {
+			e.res.Histogram["render:oracle=reachable-templates"]++
+		}
 		dsx := valueSexp(d, ids)
 		pc := c07Case{Files: files, Template: t.full(), Data: dsx}
 		e.res.Count(fmt.Sprint(files)+t.full()+dsx, true, "render")
@@ -1171,7 +1221,11 @@ func c07Render(e *env, files []srcFile, tmpls []*gtemplate, o progOpts, trees []
 			e.res.Fail(hx.Violation{Kind: "oracle", What: "rendering an accepted template with all declared params supplied looks up names that nothing binds", Case: pc,
 				Expected: "no unbound lookup", Observed: fmt.Sprint(missed)}, "")
 		}
-		if !total {
+		if exact && len(foreign) > 0 && !isPanicErr(rerr) {
+			e.res.Fail(hx.Violation{Kind: "oracle", What: "rendering an accepted template looks up a name that is neither bound nor a declared param of the executing template", Case: pc,
+				Expected: "only declared params of the executing template that its caller did not pass may be missing", Observed: fmt.Sprint(foreign)}, "")
+		}
+		if !total && !exact {
 			declared := declaredFrom(t.full())
 			for _, k := range missed {
 				if !declared[k] {
@@ -1232,6 +1286,11 @@ var c07Corpus = []struct {
 	{"data expr excuses required params", true, "{namespace ns}\n/** @param p */\n{template .t}\n{call .u data=\"$p\" /}\n{/template}\n/** @param q */\n{template .u}\n{$q}\n{/template}\n"},
 	{"optional param may be omitted", true, "{namespace ns}\n/** @param p */\n{template .t}\n{$p}{call .u /}\n{/template}\n/** @param? q */\n{template .u}\n{if $q}y{/if}\n{/template}\n"},
 	{"index of a loop variable shadowed by a let", true, "{namespace ns}\n/** @param p */\n{template .t}\n{foreach $x in [1,2]}{let $x: $p /}{index($x)}{/foreach}\n{/template}\n"},
+	{"isFirst without arguments", false, "{namespace ns}\n/** @param p */\n{template .t}\n{foreach $x in $p}{$x}{if isFirst()}y{/if}{/foreach}\n{/template}\n"},
+	{"isLast of a literal", false, "{namespace ns}\n/** @param p */\n{template .t}\n{foreach $x in $p}{$x}{isLast(1)}{/foreach}\n{/template}\n"},
+	{"isLast of a field of the loop variable", false, "{namespace ns}\n/** @param p */\n{template .t}\n{foreach $x in $p}{isLast($x.y)}{/foreach}\n{/template}\n"},
+	{"index of two loop variables", false, "{namespace ns}\n/** @param p */\n{template .t}\n{foreach $x in $p}{index($x, $x)}{/foreach}\n{/template}\n"},
+	{"index of an expression over the loop variable", false, "{namespace ns}\n/** @param p */\n{template .t}\n{foreach $x in $p}{index($x ?: 1)}{/foreach}\n{/template}\n"},
 	{"index of a param", false, "{namespace ns}\n/** @param p */\n{template .t}\n{index($p)}\n{/template}\n"},
 	{"isLast of a let", false, "{namespace ns}\n/** @param p */\n{template .t}\n{$p}{let $x: 1 /}{if isLast($x)}y{/if}\n{/template}\n"},
 	{"template name defined twice", false, "{namespace ns}\n/** @param p */\n{template .t}\n{$p}\n{/template}\n/** @param p */\n{template .t}\n{$p}\n{/template}\n"},
@@ -1275,7 +1334,7 @@ var c07Corpus = []struct {
 }
 
 func runC07(e *env) {
-	e.res.Rule = "bundles from the command grammar (depth<=3, 1-5 templates, soydoc or header params, optional params, all call forms; half with every call passing every callee param) parsed by robfig/soy; each of the single-rule violations (undeclared name, use after the block, use before definition, loop variable outside its loop, unused param, unused let, let named ij, undeclared call param, missing required param, unknown callee, soydoc+header params, header param not at head, loop function on a non-loop variable) injected at every applicable site of the parsed tree and printed back to source. Real compiler vs Coq model of Registry.Add+CheckDataRefs vs Spec wf_bundle; renders of every template of accepted bundles with all declared params supplied count unbound lookups through the hook. Distinct by source text."
+	e.res.Rule = "bundles from the command grammar (depth<=3, 1-5 templates, soydoc or header params, optional params, all call forms; half with every call passing every callee param) parsed by robfig/soy; each of the single-rule violations (undeclared name, use after the block, use before definition, loop variable outside its loop, unused param, unused let, let named ij, undeclared call param, missing required param, unknown callee, soydoc+header params, header param not at head, loop function on a non-loop variable, loop function inside a loop on anything but one plain loop variable) injected at every applicable site of the parsed tree and printed back to source. Real compiler vs Coq model of Registry.Add+CheckDataRefs vs Spec wf_bundle; renders of every template of accepted bundles with all declared params supplied count unbound lookups through the hook. Distinct by source text."
 	if e.replay != "" {
 		c07Replay(e)
 		return
